@@ -78,6 +78,7 @@ var templates = []gtemplate{
 	{"u=alice:pw:op u=bob:pw:present w=*:message auto rec utok", [][2]string{{"alice", "pw"}, {"bob", "pw"}, {"will", "pw"}}},
 	{"u=alice:pw:op u=bob::present u=carl:pw:admin w=*:present closed", [][2]string{{"alice", "pw"}, {"bob", ""}, {"carl", "pw"}, {"will", "pw"}}},
 	{"u=alice:pw:op u=bob:pw:present w=*:message notyet age=100", [][2]string{{"alice", "pw"}, {"bob", "pw"}, {"will", "pw"}}},
+	{"u=alice:pw:op u=bob:pw:present w=*:message redir=https%3A%2F%2Fexample.org%2Fgroup%2Fg9%2F", [][2]string{{"alice", "pw"}, {"bob", "pw"}, {"will", "pw"}}},
 }
 
 func (g *gstate) pickGroup() string {
@@ -792,9 +793,9 @@ func (g *gstate) directed(k int) {
 		case 0:
 			g.script("probe", "q")
 		case 1:
-			g.script("a 0", "m 0 t=offer id=s1 sdp=ok")
+			g.script("a 0", "m 0 t=offer id=s1 sdp=ok", "q")
 		default:
-			g.script("a 0", "probe", "m 1 t=join k=join g=g1 u=bob pw=pw", "a 1", "drop 0", "probe")
+			g.script("a 0", "probe", "m 1 t=join k=join g=g1 u=bob pw=pw", "a 1", "drop 0", "probe", "q")
 		}
 	case 2: // P12: a queued user event handled after leave
 		g.script("group g1 u=alice:pw:op u=bob:pw:present w=*:message", "client 0 c0", "client 1 c1",
